@@ -317,6 +317,70 @@ fn sweep_behind_table_with_leaps(cyc: &Cycle, tabs: &Tables, rec: &Recorder) -> 
     Tally { rules: 0, ..t }
 }
 
+/// years far from the explored 400-year window: the rule model is periodic in the year, an implementation need not be (an
+/// estimate that drifts, a narrowing of the year): every year 2400..=12 000 and every 99 991st year of the i32 range for 72
+/// rules, six probes per year
+fn sweep_far_years(cyc: &Cycle, rec: &Recorder, thorough: bool) -> Tally {
+    let days = [Day::M(3, 2, 0), Day::M(11, 1, 0), Day::J(60), Day::Z(59), Day::J(1), Day::M(10, 5, 0), Day::M(4, 1, 0), Day::Z(365), Day::M(2, 5, 3)];
+    let combos = quick_combos();
+    let mut specs: Vec<RuleSpec> = vec![];
+    for (i, &a) in days.iter().enumerate() {
+        for (j, &b) in days.iter().enumerate() {
+            if i != j {
+                let (st, et, o) = combos[(i * 3 + j) % 6];
+                specs.push(spec(a, b, st, et, o));
+            }
+        }
+    }
+    let mut years: Vec<i64> = (2400..=12_000).step_by(if thorough { 1 } else { 3 }).collect();
+    let mut y = i32::MIN as i64 + 5;
+    while y < i32::MAX as i64 - 5 {
+        years.push(y);
+        y += if thorough { 9_973 } else { 99_991 };
+    }
+    let t = specs
+        .par_iter()
+        .map(|r| {
+            let mut tl = Tally::default();
+            let res = guard(|| {
+                let mut tl = Tally::default();
+                let (ms, md) = (std_type(r), dst_type(r));
+                let a = match alt(r, &ms, &md) {
+                    Ok(a) => a,
+                    Err(_) => return tl,
+                };
+                let mz = MZone { trans: vec![], types: vec![ms, md], leaps: vec![], rule: Some(MRule::alt(cyc, *r, ms, md)) };
+                if !matches!(&mz.rule, Some(MRule::Alt { class: Class::StartFirst | Class::EndFirst, .. })) {
+                    return tl;
+                }
+                let types = [ltt(&ms), ltt(&md)];
+                let rule = Some(TransitionRule::Alternate(a));
+                let zr = TimeZoneRef::new(&[], &types, &[], &rule).unwrap();
+                tl.rules += 1;
+                for &y in &years {
+                    let (s, e) = (r.s(cyc, y), r.e(cyc, y));
+                    for t in [s - 1, s, e - 1, e, s + (e - s) / 2, e + 100 * 86_400] {
+                        tl.evals += 1;
+                        let exp = mz.forward(cyc, t);
+                        let got = zr.find_local_time_type(t);
+                        if !matches!((&exp, &got), (Ok(m), Ok(l)) if same_type(l, m)) {
+                            rec.violation("far_years", json!({"kind":"rule_probe","rule":spec_json(r),"t":t}), json!(format!("{:?}", exp.map(mtype_json))), json!(format!("{:?}", got.map(type_json))));
+                        }
+                    }
+                }
+                tl
+            });
+            match res {
+                Ok(t) => tl = tl.merge(t),
+                Err(m) => rec.violation("far_years", json!({"kind":"rule","rule":spec_json(r),"t":null,"year":2400}), json!("no panic"), json!(m)),
+            }
+            tl
+        })
+        .reduce(Tally::default, Tally::merge);
+    rec.sub("far_years", json!({"rules": t.rules, "years_per_rule": years.len(), "probes": t.evals}));
+    Tally { rules: 0, ..t }
+}
+
 /// the tie families used at the ends of the year range: last vs 4th week day of February at the same UTC instant (both
 /// orders), and J60 vs day 60 counted from zero one day apart (both orders)
 pub fn tie_specs() -> Vec<RuleSpec> {
@@ -529,6 +593,9 @@ pub fn run(args: &Args) -> i32 {
         total = total.merge(t);
     }
     total = total.merge(sweep_behind_table_with_leaps(&cyc, &tabs, &rec));
+    if !args.digest_mode {
+        total = total.merge(sweep_far_years(&cyc, &rec, thorough));
+    }
     // C19 digest mode: the partial-tie family is left to C04 itself
     if !args.digest_mode {
         total = total.merge(sweep_partial_ties(&tabs, &rec, thorough, kf1_open));
@@ -617,6 +684,27 @@ pub fn replay(case: &Value, args: &Args) -> i32 {
                     println!("zone refused: {}", err_name(&e));
                     bad = true;
                 }
+            }
+        }
+        println!("{}", if bad { "REPLAY: violation reproduced" } else { "REPLAY: case passes" });
+        return bad as i32;
+    }
+    if kind == "rule_probe" {
+        // one lookup in a rule-only zone against the rule model evaluated directly
+        let r = spec_from_json(&case["rule"]);
+        let t = case["t"].as_i64().unwrap();
+        let (ms, md) = (std_type(&r), dst_type(&r));
+        let mz = MZone { trans: vec![], types: vec![ms, md], leaps: vec![], rule: Some(MRule::alt(&cyc, r, ms, md)) };
+        let types = [ltt(&ms), ltt(&md)];
+        let rule = Some(TransitionRule::Alternate(alt(&r, &ms, &md).expect("rule constructible")));
+        let zr = TimeZoneRef::new(&[], &types, &[], &rule).unwrap();
+        let mut bad = false;
+        for _ in 0..2 {
+            let exp = mz.forward(&cyc, t);
+            let got = zr.find_local_time_type(t);
+            println!("model {:?} impl {:?}", exp.as_ref().map(|m| mtype_json(m)), got.as_ref().map(|l| type_json(l)));
+            if !matches!((&exp, &got), (Ok(m), Ok(l)) if same_type(l, m)) {
+                bad = true;
             }
         }
         println!("{}", if bad { "REPLAY: violation reproduced" } else { "REPLAY: case passes" });
